@@ -117,8 +117,18 @@ func (s *Service) Start(ctx context.Context) error {
 		return ErrServiceAlreadyStarted
 	}
 
+	// the service may have finished between the check above and
+	// the swap: a finished service is not started again, and must
+	// not be left marked as running.
+	if s.isFinished.Load() {
+		s.isRunning.Store(false)
+		return ErrServiceReturned
+	}
+
 	s.doStart.Do(func() {
-		defer s.isRunning.Store(true)
+		// isRunning was set by the Swap above; it is not stored
+		// again here: Run may already have finished, and its
+		// isRunning.Store(false) must not be overwritten.
 		defer s.isStarted.Store(true)
 		ec := &s.ec
 		ehSignal := make(chan struct{})
